@@ -173,6 +173,7 @@ pub fn explore_bfs<S: System>(cfg: &BfsConfig, scfg: &S::Cfg) -> BfsStats {
     let mut depth = 0usize;
     let mut closed = false;
     let mut stopped = false;
+    let mut dropped_violations = 0u64;
     while depth < cfg.max_depth {
         if frontier.is_empty() {
             closed = true;
@@ -288,6 +289,21 @@ pub fn explore_bfs<S: System>(cfg: &BfsConfig, scfg: &S::Cfg) -> BfsStats {
             violations.extend(l.violations);
             features.extend(l.features);
         }
+        // keep the shortest few histories per signature: a listed finding that fires on
+        // hundreds of branches must not use up the violation budget (its branches are cut
+        // anyway), while every distinct signature stays reported
+        {
+            violations.sort_by(|a, b| (a.0.len(), &a.0).cmp(&(b.0.len(), &b.0)));
+            let mut per: std::collections::HashMap<String, usize> = std::collections::HashMap::new();
+            violations.retain(|(_, v)| {
+                let k = per.entry(v.sig.clone()).or_insert(0);
+                *k += 1;
+                if *k > 3 {
+                    dropped_violations += 1;
+                }
+                *k <= 3
+            });
+        }
         if stopped_now {
             caps.push(format!(
                 "wall cap {}s hit while expanding depth {} ({} of {} states of that level expanded); depths < {} fully expanded",
@@ -380,6 +396,7 @@ pub fn explore_bfs<S: System>(cfg: &BfsConfig, scfg: &S::Cfg) -> BfsStats {
         extra: Default::default(),
     };
     part.extra.insert("closed".into(), serde_json::json!(closed));
+    part.extra.insert("violating_executions_beyond_three_per_signature".into(), serde_json::json!(dropped_violations));
     part.extra.insert("level_sizes".into(), serde_json::json!(level_sizes));
     part.extra.insert("features".into(), serde_json::json!(feats));
     let samples = samples.iter().map(|h| describe_history::<S>(scfg, h)).collect();
